@@ -70,8 +70,23 @@ def custom(x, y):
     return d
 
 
+def custom2(x, y):
+    """a second merge function, distinguishable from `custom` on every input pair: the other operand wins"""
+    if x is None and y is None:
+        return None
+    d = dict(x or {})
+    d.update(y or {})
+    d['merged2'] = ('x' if x is not None else '') + ('y' if y is not None else '')
+    return d
+
+
+# (receiver obs md, receiver sample md, other obs md, other sample md): the first six with every function
+# variant, the remaining ten of the sixteen with the default functions and with two different functions
 MDCFG = [(0, 0, 0, 0), (1, 1, 0, 0), (0, 0, 1, 1), (1, 1, 1, 1), (1, 0, 0, 1), (0, 1, 1, 0)]
-FUNCS = ['default', 'custom', 'none']
+MDCFG += [c for c in itertools.product((0, 1), repeat=4) if c not in MDCFG]
+FUNCS = ['default', 'custom', 'none', 'two', 'sample_only', 'observation_only']
+FUNC_ARGS = {'default': (None, None), 'custom': (custom, custom), 'none': (None, None), 'two': (custom, custom2),
+             'sample_only': (custom, None), 'observation_only': (None, custom2)}     # (sample f, observation f)
 
 
 def cases(tier, seed):
@@ -81,7 +96,7 @@ def cases(tier, seed):
     for ao in so:
         for as_ in ss:
             for bo in so:
-                out.append({'kind': 'pairs', 'ao': ao, 'as': as_, 'bo': bo, 'k': k})
+                out.append({'kind': 'pairs', 'ao': ao, 'as': as_, 'bo': bo, 'k': k, 'tier': tier})
     red_o = [['o1'], ['o2', 'o1'], ['o3', 'o2']]
     red_s = [['s1', 's2'], ['s2'], ['s3', 's1']]
     for a in itertools.product(red_o, red_s):
@@ -109,13 +124,18 @@ def check(case, acc, tmp):
     k = case['k']
     ao, as_ = case['ao'], case['as']
     only = case.get('only')
+    # quick tier: the ten further metadata configurations and the per-axis function variants on a reduced set
+    # of receiver selections (every selection of the other operand)
+    extras = case.get('tier') != 'quick' or (ao in (['o1', 'o2'], ['o2', 'o1'], ['o3']) and as_ in (['s1', 's2'], ['s2']))
     for bo in [case['bo']]:
         for bs in selections(US, k):
             for ci, cfg in enumerate(MDCFG):
+                if ci >= 6 and not extras:
+                    continue
                 amo, ams, bmo, bms = cfg
                 for sm in ('union', 'intersection'):
                     for om in ('union', 'intersection'):
-                        for fn in FUNCS:
+                        for fn in ((FUNCS if extras else FUNCS[:3]) if ci < 6 else ('default', 'two')):
                             if fn == 'none' and (sm, om) != ('union', 'union'):
                                 continue        # None functions are documented for the fast (union) merge only
                             lays = ('csr', 'csc') if ci == 0 and fn == 'default' else ('csr',)
@@ -132,13 +152,17 @@ def one(acc, case, ao, as_, kw):
     amo, ams, bmo, bms = cfg
     A, mA = mk('A', ao, as_, amo, ams, lay)
     B, mB = mk('B', bo, bs, bmo, bms, lay)
+    smf, omf = FUNC_ARGS[fn]
     args = {}
-    if fn == 'custom':
-        args = dict(sample_metadata_f=custom, observation_metadata_f=custom)
-    elif fn == 'none':
+    if fn == 'none':
         args = dict(sample_metadata_f=None, observation_metadata_f=None)
+    else:
+        if smf is not None:
+            args['sample_metadata_f'] = smf
+        if omf is not None:
+            args['observation_metadata_f'] = omf
     try:
-        exp = MD.merge(mA, mB, sm, om, custom if fn == 'custom' else None, custom if fn == 'custom' else None)
+        exp = MD.merge(mA, mB, sm, om, smf, omf)
     except ModelRefuse:
         exp = None
     acc.trans += 1
